@@ -588,6 +588,7 @@ Section Refine.
   Proof.
     intros Hn. rewrite two_p_62 in Hn. unfold map_extend_reserve. destruct b; [rewrite two_p_64; lia|].
     unfold wadd. rewrite wrap_small by (rewrite two_p_64; lia).
+    rewrite ?Z.shiftr_div_pow2 by lia. change (2 ^ 1)%Z with 2%Z.
     pose proof (Z.div_pos (n + 1) 2 ltac:(lia) ltac:(lia)).
     pose proof (Z.div_le_upper_bound (n + 1) 2 (n + 1) ltac:(lia) ltac:(lia)).
     rewrite two_p_64. lia.
